@@ -560,12 +560,27 @@ def bits_of(model, ty, v):
     return x.as_long()
 
 
+REAL_TIMEOUT = 60
+
+
 def run_real(script, fn, sig, argbits, child=False, leakcheck=False):
     cmd = [EXTRACT, "run-child" if child else "run", script, fn, sig] + [hex(b) for b in argbits]
     env = dict(os.environ)
     if leakcheck:
         env["VERIF_LEAKCHECK"] = "1"      # warm-up call, then report the change in live heap allocations over a second call
-    p = subprocess.run(cmd, capture_output=True, text=True, timeout=60, env=env)
+    # own process group: `run-child` starts the real run as its child; on a timeout both must go
+    proc = subprocess.Popen(cmd, stdout=subprocess.PIPE, stderr=subprocess.PIPE, text=True, env=env, start_new_session=True)
+    try:
+        so, se = proc.communicate(timeout=REAL_TIMEOUT)
+    except subprocess.TimeoutExpired:
+        import signal
+        try:
+            os.killpg(proc.pid, signal.SIGKILL)
+        except ProcessLookupError:
+            pass
+        proc.communicate()
+        raise
+    p = subprocess.CompletedProcess(cmd, proc.returncode, so, se)
     line = p.stdout.strip().split("\n")[-1] if p.stdout.strip() else ""
     try:
         return json.loads(line)
